@@ -1,5 +1,6 @@
 """C07 - OpenADAS rates reproduce the stored tables and honour the range / missing-data policy."""
 import atexit
+import itertools
 import math
 import os
 import shutil
@@ -22,6 +23,7 @@ from cherab.core.atomic import elements as E  # noqa: E402
 from cherab.core.atomic import Isotope  # noqa: E402
 from cherab.openadas import OpenADAS  # noqa: E402
 from cherab.openadas import repository as R  # noqa: E402
+from cherab.core.utility.conversion import PhotonToJ  # noqa: E402
 
 ID = "C07"
 SHARDS = {"quick": 8, "thorough": 16}
@@ -47,15 +49,25 @@ RULE = ("One case = one fresh temporary repository written through the update_* 
         "combination of (permit_extrapolation, missing_rates_return_null, wavelength_element_fallback) and one requested "
         "species (element or isotope; for isotopes a *decoy* table scaled by a drawn factor is stored under the isotope's own "
         "symbol). Grids: 2-7 strictly increasing positive points per axis (1 point = separately labelled class), either "
-        "10**(u0+cumsum(steps)) with steps in [0.2|0.3, 1.2] decades or ADAS-like 1-2-5 sequences; tables 10**(base+W*U[0,1]) "
-        "(W <= 6 decades for 'nearest'/'linear' extrapolated tables, <= 1.5 for quadratically extrapolated 1-D components so "
-        "that one decade of extrapolation cannot overflow). Sub-checks tab (9 log-log table accessors incl. the 3-D thermal CX "
-        "PEC), beam (stopping/population/emission), beamcx, wl (wavelength accessor), missing (absent keys: empty repository, "
-        "sibling key in the same file, rate present but wavelength absent; + the two inherited accessors OpenADAS does not "
-        "implement) and matrix (Enum: every accessor x 8 flag combinations x present/missing x element/isotope on fixed small "
-        "tables, so the coverage matrix is complete in every run). Evaluated: every grid point (beam-CX: all axis sweeps + drawn "
-        "multi-indices), 3 strictly interior points, one non-positive value per density/temperature/energy argument, and both "
-        "sides of every axis up to one decade outside. Non-trivial = data present, every axis >= 2 points and a non-constant "
+        "10**(u0+cumsum(steps)) with steps in [0.2|0.3, 1.2] decades or ADAS-like 1-2-5 sequences (which contain exactly 1.0); in "
+        "half of the grids the first and last knot of every log axis are moved (< 1500 ulp) onto doubles whose numpy-log10 and "
+        "libm-log10 differ (either direction). Tables 10**(base+W*U[0,1]) (W <= 6 decades for 'nearest'/'linear' extrapolated "
+        "tables, <= 1.5 for quadratically extrapolated 1-D components so that one decade of extrapolation cannot overflow, <= 3 for "
+        "the linear-space beam-CX components); dimensionless tables of order 1 with entries / sref / qref exactly 1.0 for beam "
+        "population and beam CX. Sub-checks tab (9 log-log table accessors incl. the 3-D thermal CX PEC), beam "
+        "(stopping/population/emission), beamcx, wl (wavelength accessor; other transitions in the same json file), missing "
+        "(absent keys: empty repository; existing file with other charges / other transitions / other metastable / data under the "
+        "isotope's own symbol; data_path omitted = default repository under the redirected empty HOME; + the two inherited "
+        "accessors OpenADAS does not implement) and matrix (Enum, fixed content: every accessor x 8 flag combinations x "
+        "present/missing x element/isotope on 6-decade zig-zag tables with mismatching edge knots on every axis, every "
+        "single-point branch the beam / beam-CX classes accept, PhotonToJ.to/inv). Evaluated per rate object: every grid point "
+        "(beam-CX: all axis sweeps + drawn multi-indices), one drawn point inside EVERY grid cell (beam-CX: 2-3 per interval of "
+        "every axis, others at knots), 3 more interior points, exactly 1.0 where inside, one non-positive value per "
+        "density/temperature/energy argument, both sides of every axis up to one decade outside; then a sibling key (other charge "
+        "/ transition / metastable, table x drawn factor) requested from the SAME provider, a second object for the same key "
+        "(keyword arguments, other transition spelling) evaluated through .evaluate() with int / numpy.float64 arguments, and the "
+        "first object again at the very end: both must reproduce the first pass bit for bit. Provider built with keywords / "
+        "positionally / with default-valued flags omitted. Non-trivial = data present, every axis >= 2 points and a non-constant "
         "table (tab/beam/beamcx); missing/wl cases: a sibling key or a stored wavelength exists (the lookup can go wrong).")
 ASSUMPTIONS = ["update_* / get_* store and return the numbers bit for bit (verified by C06)",
                "h and c from scipy.constants (CODATA 2018, exact SI values) are the documented photon->J conversion constants",
@@ -66,7 +78,10 @@ ASSUMPTIONS = ["update_* / get_* store and return the numbers bit for bit (verif
                "(the statement does not say which datum 'missing' refers to)",
                "total_radiated_power / fractional_abundance are not implemented by OpenADAS: NotImplementedError (a RuntimeError) "
                "is accepted for every flag combination",
-               "z-effective and b-field are not 'density, temperature or energy': no <=0 -> 0 demand on them"]
+               "z-effective and b-field are not 'density, temperature or energy': no <=0 -> 0 demand on them",
+               "two rate objects built by the same provider from the same stored key are numerically identical objects: bit-for-bit "
+               "equality of repeated / second-object evaluations is implied by 'reproduces the stored table' being a function of "
+               "the repository content and the arguments only"]
 TOLERANCES = {"grid": "1e-9 relative per element: cubic spline evaluated at its own knots in log10 space, |log10 value| <= ~60 so "
                       "one ulp of the exponent is ~1.6e-14 relative after 10**; the bi/tri-cubic coefficient solve amplifies this "
                       "(measured maxima over 3e4 random tables: 4e-13 for 2-D, 4e-12 for the 3-D thermal CX PEC, 7e-14 beam CX); "
@@ -99,7 +114,7 @@ BCX_AXES = (("eb", "qeb"), ("ti", "qti"), ("ni", "qni"), ("z", "qz"), ("b", "qb"
 NONPOS = [0.0, -0.0, -1.0, -1e-300, -1e300, -37.5]
 
 
-_counts = {"grid_points": 0, "interior_points": 0, "nonpositive_args": 0, "out_of_range_raises": 0, "extrapolated_values": 0,
+_counts = {"repeat_values": 0, "interior_cells": 0, "grid_points": 0, "interior_points": 0, "nonpositive_args": 0, "out_of_range_raises": 0, "extrapolated_values": 0,
            "null_rate_values": 0, "runtimeerror_expected": 0,
            "grid_relerr": {"<=1e-14": 0, "<=1e-12": 0, "<=1e-10": 0, "<=1e-9": 0, ">1e-9": 0},
            "extrapolated_log10_abs": {"<=50": 0, "<=150": 0, "<=300": 0, "underflow_to_0": 0}}
@@ -124,10 +139,28 @@ def _flag_label(fl):
     return "E%dN%dF%d" % tuple(int(bool(x)) for x in fl)
 
 
-REQUIRED_LABELS = ["matrix:cov:%s:%s:%s" % (a, _flag_label(f), "present") for a in ACCESSORS if a not in INHERITED for f in FLAGS] + \
-                  ["tab:acc:" + a for a in TAB_ACC] + ["beam:acc:" + a for a in BEAM_ACC] + \
-                  ["tab:req:isotope", "tab:req:element", "beam:req:isotope", "beamcx:req:isotope", "missing:variant:sibling",
-                   "missing:variant:empty", "wl:wl:isotope-own", "wl:wl:fallback-used", "wl:wl:missing"]
+_RATE_ACC = TAB_ACC + BEAM_ACC + ["beam_cx_pec"]
+REQUIRED_LABELS = \
+    ["matrix:cov:%s:%s:present" % (a, _flag_label(f)) for a in ACCESSORS if a not in INHERITED for f in FLAGS] + \
+    ["matrix:cov:%s:%s:missing" % (a, _flag_label(f)) for a in _RATE_ACC + INHERITED for f in FLAGS
+     if not (f[1] and ((a == "recombination_pec" and _open(F_RPEC)) or (a == "beam_cx_pec" and _open(F_BCXNULL))))] + \
+    ["matrix:null:" + a for a in _RATE_ACC if not ((a == "recombination_pec" and _open(F_RPEC)) or (a == "beam_cx_pec" and _open(F_BCXNULL)))] + \
+    ([] if _open(F_EDGE) else
+     ["matrix:edge:log10-mismatch:%s:axis%d" % (a, k) for a in TAB_ACC for k in range(3 if a == "thermal_cx_pec" else 2)] +
+     ["matrix:edge:log10-mismatch:%s:axis%d" % (a, k) for a in BEAM_ACC for k in range(3)] + ["matrix:edge:log10-mismatch:beam_cx_pec:axis0"] +
+     ["tab:edge:log10-mismatch", "beam:edge:log10-mismatch", "beamcx:edge:log10-mismatch"]) + \
+    ["matrix:single-axis:%s:%s" % (a, x) for a in BEAM_ACC for x in "en"] + ["matrix:single-axis:beam_cx_pec:" + x for x, _ in BCX_AXES] + \
+    ["matrix:sib:other-transition-same-file:" + a for a in sorted(PHOTON)] + ["matrix:sib:other-transition-same-file", "wl:sib:other-transition-same-file"] + \
+    ["missing:sib:other-transition-same-file:" + a for a in sorted(PHOTON)] + \
+    ["matrix:sib:other-charge-same-file:" + a for a in sorted(ADF11) + ["thermal_cx_rate"]] + \
+    ["matrix:entry:" + e for e in ("data_path", "default-path", "PhotonToJ.to", "PhotonToJ.inv", "evaluate", "__call__")] + \
+    ["matrix:interior:clamped-to-zero", "beamcx:interior:clamped-to-zero", "matrix:arg:exactly-1.0", "tab:arg:exactly-1.0"] + \
+    [sub + ":reuse:repeated" for sub in ("matrix", "tab", "beam", "beamcx")] + \
+    ["tab:reuse:provider-second-key:transition", "tab:reuse:provider-second-key:charge", "beam:reuse:provider-second-key:metastable",
+     "beamcx:reuse:provider-second-key:transition"] + \
+    ["tab:adform:%d" % i for i in range(3)] + ["missing:variant:default-path", "missing:variant:sibling", "missing:variant:empty"] + \
+    ["tab:acc:" + a for a in TAB_ACC] + ["beam:acc:" + a for a in BEAM_ACC] + \
+    ["tab:req:isotope", "tab:req:element", "beam:req:isotope", "beamcx:req:isotope", "wl:wl:isotope-own", "wl:wl:fallback-used", "wl:wl:missing"]
 
 
 # ================================================================================================ helpers
@@ -148,9 +181,73 @@ def _tr(i):
     return tuple(TRANSITIONS[i])
 
 
-def _ad(path, fl):
-    return OpenADAS(data_path=path, permit_extrapolation=bool(fl[0]), missing_rates_return_null=bool(fl[1]),
-                    wavelength_element_fallback=bool(fl[2]))
+def _tr_alt(i):
+    """Another spelling of the same transition: int <-> str, letter case swapped (the repository key is lower-cased str)."""
+    return tuple((str(x) if isinstance(x, int) else x.swapcase()) for x in TRANSITIONS[i])
+
+
+def _ad(path, fl, form=0):
+    """form 0: keywords; 1: positional; 2: flags that equal the documented default (False) are omitted."""
+    e, n, f = bool(fl[0]), bool(fl[1]), bool(fl[2])
+    if form == 1:
+        return OpenADAS(path, e, n, f)
+    if form == 2:
+        kw = {}
+        if e:
+            kw["permit_extrapolation"] = True
+        if n:
+            kw["missing_rates_return_null"] = True
+        if f:
+            kw["wavelength_element_fallback"] = True
+        return OpenADAS(data_path=path, **kw)
+    return OpenADAS(data_path=path, permit_extrapolation=e, missing_rates_return_null=n, wavelength_element_fallback=f)
+
+
+def _alt(x, i):
+    """Same double, another Python form: int (when integral), numpy.float64, float."""
+    if i % 3 == 0 and float(x).is_integer() and abs(x) < 2.0 ** 62:
+        return int(x)
+    if i % 3 == 1:
+        return np.float64(x)
+    return float(x)
+
+
+def _log10_differs(x):
+    return float(np.log10(np.array([x, x, x, x, x]))[2]) != math.log10(x)
+
+
+def _harmful_edge(x, side, rev=False):
+    """Nearest double to x (searching towards the inside of the grid) for which numpy's log10 and libm's log10 differ such
+    that a knot computed with one of them lies strictly inside the value computed with the other: evaluating exactly at
+    this edge knot then falls outside [knot_min, knot_max] unless knots and arguments use the same function."""
+    n = 1500
+    cand = x + np.arange(n) * np.spacing(x) * (1.0 if side == 0 else -1.0)
+    a = np.log10(cand)
+    b = np.array([math.log10(v) for v in cand])
+    lower = (b < a) if (side == 0) != rev else (b > a)
+    bad = np.nonzero(lower)[0]
+    return float(cand[bad[0]]) if len(bad) else float(x)
+
+
+def _edge_labels(ctx, acc, axes, logaxes):
+    for k, a in enumerate(axes):
+        if logaxes[k] and len(a) >= 2 and (_log10_differs(a[0]) or _log10_differs(a[-1])):
+            ctx.label("edge:log10-mismatch", "edge:log10-mismatch:%s:axis%d" % (acc, k))
+
+
+def _repeat(ctx, what, rate, rate2, pts, first):
+    """RE-USE / FORMS: a second rate object obtained from the same provider (keyword arguments, other transition spelling),
+    called through .evaluate() with int / numpy.float64 arguments, and the first object called again at the very end must
+    both reproduce the first pass bit for bit."""
+    for i, (p, g) in enumerate(zip(pts, first)):
+        a = [_alt(x, i + k) for k, x in enumerate(p)]
+        with ctx.cut(what + ":evaluate"):
+            v2 = float(rate2.evaluate(*a))
+        ctx.check(v2 == g, what + ":second-object", lambda: "second object .evaluate(%r) = %r, first object __call__ gave %r" % (a, v2, g))
+        v3 = _call(ctx, what + ":again", rate, p)
+        ctx.check(v3 == g, what + ":again", lambda: "same object, same arguments %r: first %r, repeated at the end %r" % (p, g, v3))
+    _counts["repeat_values"] += 2 * len(pts)
+    ctx.label("entry:evaluate", "entry:__call__", "reuse:repeated")
 
 
 class _WL:
@@ -212,7 +309,7 @@ def _check_zero_everywhere(ctx, what, rate, battery):
         ctx.check(v == 0.0, what, lambda: "null rate returned %r at %r" % (v, args))
 
 
-def _points(ctx, what, rate, axes, guarded, case, ext, ref=None, ref_scale=1.0):
+def _points(ctx, what, rate, axes, guarded, case, ext, ref=None, ref_scale=1.0, sweep_base=None):
     """Common evaluation battery for a rate with tabulated axes `axes` (lists of knots).
 
     guarded[k]: argument k is a density / temperature / energy (non-positive => 0)."""
@@ -228,6 +325,39 @@ def _points(ctx, what, rate, axes, guarded, case, ext, ref=None, ref_scale=1.0):
         if ref is not None:
             w = _call(ctx, what + ":interior-element", ref, p)
             ctx.close(v * ref_scale[0], w * ref_scale[1], what + ":isotope==element", rtol=ref_scale[2], info="at %r" % (p,))
+    # ---- one point inside EVERY cell of the grid (<= 3 axes) or inside every interval of every axis, the other axes at knots
+    # (beam CX: linear-space splines may undershoot, the product must still be >= 0): finite and non-negative
+    cf = case.get("cf") or [[0.5] * na]
+    def _inside(k, i, f):
+        a = axes[k]
+        return a[0] if len(a) == 1 else a[i] * (a[i + 1] / a[i]) ** f
+    cells = []
+    if sweep_base is None:
+        for j, cell in enumerate(itertools.product(*[range(max(len(a) - 1, 1)) for a in axes])):
+            f = cf[j % len(cf)]
+            cells.append([_inside(k, cell[k], f[k]) for k in range(na)])
+    else:
+        for k in range(na):
+            for i in range(len(axes[k]) - 1):
+                for f in cf:
+                    p = [axes[m][sweep_base[m] % len(axes[m])] for m in range(na)]
+                    p[k] = _inside(k, i, f[k])
+                    cells.append(p)
+    for p in cells:
+        v = _call(ctx, what + ":interior", rate, p)
+        ctx.check(math.isfinite(v) and v >= 0.0, what + ":interior", lambda: "value %r at interior point %r" % (v, p))
+        if v == 0.0:
+            ctx.label("interior:clamped-to-zero")
+    _counts["interior_cells"] += len(cells)
+    # ---- an argument of exactly 1.0 (log10 = 0) wherever 1.0 lies strictly inside an axis
+    for k in range(na):
+        if len(axes[k]) >= 2 and axes[k][0] < 1.0 < axes[k][-1]:
+            p = [_axis_point(axes[m], us[2][m]) for m in range(na)] if sweep_base is None else \
+                [axes[m][sweep_base[m] % len(axes[m])] for m in range(na)]
+            p[k] = 1.0
+            v = _call(ctx, what + ":interior", rate, p)
+            ctx.check(math.isfinite(v) and v >= 0.0, what + ":interior", lambda: "value %r at %r (argument %d exactly 1.0)" % (v, p, k))
+            ctx.label("arg:exactly-1.0")
     # ---- non-positive density / temperature / energy => exactly 0
     base = [_axis_point(axes[k], us[1][k]) for k in range(na)]
     for k in range(na):
@@ -294,8 +424,18 @@ def _tab_write(ctx, path, acc, case, table, species, donor):
             R.update_pec_thermal_cx_rates({donor: {case["dq"]: {species: {q: {_tr(case["tr"]): d}}}}}, path)
 
 
-def _tab_get(ad, acc, case, name, donor_name):
+def _tab_get(ad, acc, case, name, donor_name, form=0):
+    """form 1: keyword arguments (names of the OpenADAS signatures), transition in its other spelling."""
     sp, q = SP[name], case["q"]
+    if form == 1:
+        tr = _tr_alt(case["tr"])
+        if acc in ADF11:
+            return getattr(ad, acc)(ion=sp, charge=q)
+        if acc == "thermal_cx_rate":
+            return ad.thermal_cx_rate(donor_element=SP[donor_name], donor_charge=case["dq"], receiver_element=sp, receiver_charge=q)
+        if acc in PEC2:
+            return getattr(ad, acc)(ion=sp, charge=q, transition=tr)
+        return ad.thermal_cx_pec(donor_element=SP[donor_name], donor_charge=case["dq"], receiver_element=sp, receiver_charge=q, transition=tr)
     if acc in ADF11:
         return getattr(ad, acc)(sp, q)
     if acc == "thermal_cx_rate":
@@ -303,6 +443,33 @@ def _tab_get(ad, acc, case, name, donor_name):
     if acc in PEC2:
         return getattr(ad, acc)(sp, q, _tr(case["tr"]))
     return ad.thermal_cx_pec(SP[donor_name], case["dq"], sp, q, _tr(case["tr"]))
+
+
+def _sib_case(case, acc, qkey, zmax, qmin):
+    """A second key of the same family (other charge / transition / metastable), served by the SAME provider instance."""
+    sib = case.get("sib")
+    if not sib:
+        return None
+    c2 = dict(case)
+    if sib["what"] == "tr" and acc in PHOTON:
+        c2["tr"] = (case["tr"] + 1) % len(TRANSITIONS)
+    elif sib["what"] == "ms" and acc == "beam_population_rate":
+        c2["ms"] = case["ms"] + 1
+    else:
+        q = case[qkey]
+        q2 = q + 1 if q + 1 <= zmax else q - 1
+        if q2 < qmin:
+            return None
+        c2[qkey] = q2
+    return c2
+
+
+def _wl_sibling(wl, case, name, charge2, tr2):
+    """wavelengths of the sibling key: same presence pattern as the main key, shifted by 1 nm."""
+    if case.get("wl_el") is not None:
+        wl.put(_elem(name), charge2, tr2, case["wl_el"] + 1.0)
+    if _is_iso(name) and case.get("wl_iso") is not None:
+        wl.put(SP[name], charge2, tr2, case["wl_iso"] + 1.0)
 
 
 def _wl_charge(acc, q):
@@ -331,9 +498,16 @@ def run_tab(case, ctx):
                     ctx.label("decoy")
         _tab_write(ctx, path, acc, case, table.tolist(), _elem(name), _elem(donor_name))
         wl = _wl_store(case, name, _wl_charge(acc, case["q"]), case["tr"])
+        c2 = _sib_case(case, acc, "q", SP[name].atomic_number, 1 if acc == "thermal_cx_pec" else 0)
+        if c2 is not None:
+            _tab_write(ctx, path, acc, c2, (table * case["sib"]["scale"]).tolist(), _elem(name), _elem(donor_name))
+            _wl_sibling(wl, case, name, _wl_charge(acc, c2["q"]), c2["tr"])
         if acc in PHOTON:
             wl.write(ctx, path)
-        ad = _ad(path, fl)
+        ad = _ad(path, fl, case.get("adform", 0))
+        ctx.check(ad.data_path == path, "data_path", lambda: "data_path property %r != %r" % (ad.data_path, path))
+        ctx.label("entry:data_path", "adform:%d" % case.get("adform", 0))
+        _edge_labels(ctx, acc, axes, [True] * len(axes))
         lam = wl.expect(name, _wl_charge(acc, case["q"]), case["tr"], fl[2]) if acc in PHOTON else None
         what = acc
         if acc in PHOTON and lam is None:
@@ -369,6 +543,21 @@ def run_tab(case, ctx):
                 ctx.close(got * scale[0], g2 * scale[1], what + ":isotope==element", rtol=scale[2])
                 ctx.label("isotope==element")
         multi = _points(ctx, what, rate, axes, [True] * len(axes), case, bool(fl[0]), ref, scale)
+        pts = [[axes[k][i] for k, i in enumerate(idx)] for idx in np.ndindex(*want.shape)]
+        # --- a sibling key (other charge / transition) served by the same provider instance
+        if c2 is not None:
+            lam2 = wl.expect(name, _wl_charge(acc, c2["q"]), c2["tr"], fl[2]) if acc in PHOTON else None
+            with ctx.cut(what + ":construct-sibling"):
+                rs = _tab_get(ad, acc, c2, name, donor_name)
+            want2 = table * case["sib"]["scale"] * (HC / (lam2 * 1e-9) if acc in PHOTON else 1.0)
+            g2 = np.array([_call(ctx, what + ":grid-sibling", rs, pp) for pp in pts]).reshape(want.shape)
+            ctx.close(g2 / want2, np.ones_like(want2), what + ":grid-sibling", rtol=1e-9,
+                      info="(sibling key %s=%r of the same provider; wavelength %r)" % (case["sib"]["what"], (c2["q"], c2["tr"]), lam2))
+            ctx.label("reuse:provider-second-key:" + ("transition" if c2["tr"] != case["tr"] else "charge"))
+        # --- second object (keyword / other spelling / .evaluate / int, np.float64 arguments) and the first object again
+        with ctx.cut(what + ":construct-again"):
+            rate2 = _tab_get(ad, acc, case, name, donor_name, form=1)
+        _repeat(ctx, what, rate, rate2, pts, got.ravel().tolist())
         ctx.nt(multi and float(table.max()) > float(table.min()))
     finally:
         shutil.rmtree(path, ignore_errors=True)
@@ -390,8 +579,14 @@ def _beam_write(ctx, path, acc, case, sen, st_, beam, target):
             R.update_beam_emission_rates({beam: {target: {tq: {_tr(case["tr"]): d}}}}, path)
 
 
-def _beam_get(ad, acc, case, beam_name, target_name):
+def _beam_get(ad, acc, case, beam_name, target_name, form=0):
     b, t, tq = SP[beam_name], SP[target_name], case["tq"]
+    if form == 1:
+        if acc == "beam_stopping_rate":
+            return ad.beam_stopping_rate(beam_ion=b, plasma_ion=t, charge=tq)
+        if acc == "beam_population_rate":
+            return ad.beam_population_rate(beam_ion=b, metastable=case["ms"], plasma_ion=t, charge=tq)
+        return ad.beam_emission_pec(beam_ion=b, plasma_ion=t, charge=tq, transition=_tr_alt(case["tr"]))
     if acc == "beam_stopping_rate":
         return ad.beam_stopping_rate(b, t, tq)
     if acc == "beam_population_rate":
@@ -423,9 +618,15 @@ def run_beam(case, ctx):
                         ctx.label("decoy")
         _beam_write(ctx, path, acc, case, sen.tolist(), st_.tolist(), _elem(bname), _elem(tname))
         wl = _wl_store(case, bname, 0, case["tr"])
+        c2 = _sib_case(case, acc, "tq", SP[tname].atomic_number, 0)
+        if c2 is not None:
+            _beam_write(ctx, path, acc, c2, (sen * case["sib"]["scale"]).tolist(), st_.tolist(), _elem(bname), _elem(tname))
+            _wl_sibling(wl, case, bname, 0, c2["tr"])
         if acc in PHOTON:
             wl.write(ctx, path)
-        ad = _ad(path, fl)
+        ad = _ad(path, fl, case.get("adform", 0))
+        ctx.label("adform:%d" % case.get("adform", 0))
+        _edge_labels(ctx, acc, axes, [True] * 3)
         lam = wl.expect(bname, 0, case["tr"], fl[2]) if acc in PHOTON else None
         if acc in PHOTON and lam is None:
             ctx.label("wl-missing")
@@ -456,6 +657,19 @@ def run_beam(case, ctx):
                 ctx.close(got * scale[0], g2 * scale[1], acc + ":isotope==element", rtol=scale[2])
                 ctx.label("isotope==element")
         multi = _points(ctx, acc, rate, axes, [True] * 3, case, bool(fl[0]), ref, scale)
+        pts = [[axes[k][i] for k, i in enumerate(idx)] for idx in np.ndindex(*want.shape)]
+        if c2 is not None:
+            lam2 = wl.expect(bname, 0, c2["tr"], fl[2]) if acc in PHOTON else None
+            with ctx.cut(acc + ":construct-sibling"):
+                rs = _beam_get(ad, acc, c2, bname, tname)
+            want2 = want / conv * case["sib"]["scale"] * (HC / (lam2 * 1e-9) if acc in PHOTON else 1.0)
+            g2 = np.array([_call(ctx, acc + ":grid-sibling", rs, pp) for pp in pts]).reshape(want.shape)
+            ctx.close(g2 / want2, np.ones_like(want2), acc + ":grid-sibling", rtol=1e-9,
+                      info="(sibling key %s of the same provider; wavelength %r)" % (case["sib"]["what"], lam2))
+            ctx.label("reuse:provider-second-key:" + ("transition" if c2["tr"] != case["tr"] else ("metastable" if c2["ms"] != case["ms"] else "charge")))
+        with ctx.cut(acc + ":construct-again"):
+            rate2 = _beam_get(ad, acc, case, bname, tname, form=1)
+        _repeat(ctx, acc, rate, rate2, pts, got.ravel().tolist())
         ctx.nt(multi and (float(sen.max()) > float(sen.min()) or float(st_.max()) > float(st_.min())))
     finally:
         shutil.rmtree(path, ignore_errors=True)
@@ -490,8 +704,15 @@ def run_beamcx(case, ctx):
         with ctx.cut("setup:update_beam_cx_rates"):
             R.update_beam_cx_rates({_elem(dname): {_elem(rname): {rq: {_tr(tri): {int(m): _bcx_rate(v) for m, v in case["ms"].items()}}}}}, path)
         wl = _wl_store(case, rname, rq - 1, tri)
+        cs = _sib_case(case, acc, "rq", SP[rname].atomic_number, 1)
+        if cs is not None:
+            with ctx.cut("setup:update_beam_cx_rates"):
+                R.update_beam_cx_rates({_elem(dname): {_elem(rname): {cs["rq"]: {_tr(cs["tr"]): {
+                    int(m): _bcx_rate(v, case["sib"]["scale"]) for m, v in case["ms"].items()}}}}}, path)
+            _wl_sibling(wl, case, rname, cs["rq"] - 1, cs["tr"])
         wl.write(ctx, path)
-        ad = _ad(path, fl)
+        ad = _ad(path, fl, case.get("adform", 0))
+        ctx.label("adform:%d" % case.get("adform", 0))
         lam = wl.expect(rname, rq - 1, tri, fl[2])
         get = lambda d, r: ad.beam_cx_pec(SP[d], SP[r], rq, _tr(tri))  # noqa: E731
         if lam is None:
@@ -515,6 +736,15 @@ def run_beamcx(case, ctx):
                 ctx.label("isotope==element")
         conv = HC / (lam * 1e-9)
         nt = False
+        with ctx.cut(acc + ":construct-again"):
+            again = {int(r.donor_metastable): r for r in
+                     ad.beam_cx_pec(donor_ion=SP[dname], receiver_ion=SP[rname], receiver_charge=rq, transition=_tr_alt(tri))}
+        sibs = None
+        if cs is not None:
+            lam2 = wl.expect(rname, cs["rq"] - 1, cs["tr"], fl[2])
+            with ctx.cut(acc + ":construct-sibling"):
+                sibs = {int(r.donor_metastable): r for r in ad.beam_cx_pec(SP[dname], SP[rname], cs["rq"], _tr(cs["tr"]))}
+            ctx.label("reuse:provider-second-key:" + ("transition" if cs["tr"] != tri else "charge"))
         for rate in rates:
             d = case["ms"][str(int(rate.donor_metastable))]
             axes = [list(map(float, d[x])) for x, _ in BCX_AXES]
@@ -540,9 +770,13 @@ def run_beamcx(case, ctx):
             for ix in case["idx"]:
                 todo.add(tuple(ix[k] % len(axes[k]) for k in range(5)))
             ref = refs.get(int(rate.donor_metastable)) if refs else None
+            _edge_labels(ctx, acc, axes, [True, False, False, False, False])
+            pts, first = [], []
             for idx in sorted(todo):
                 p = [axes[k][i] for k, i in enumerate(idx)]
                 v = _call(ctx, acc + ":grid", rate, p)
+                pts.append(p)
+                first.append(v)
                 w = want_at(idx)
                 ctx.check(v >= 0.0, acc + ":nonnegative", lambda: "negative value %r at grid point %r" % (v, p))
                 _count_err(v / w)
@@ -556,7 +790,17 @@ def run_beamcx(case, ctx):
             skip = [1, 2] if case.get("skip_beamcx_nonpos") else []
             c2["skip_nonpos"] = skip
             multi = _points(ctx, acc, rate, axes, [True, True, True, False, False], c2, bool(fl[0]),
-                            ref, (lam, lam_e, 1e-9) if ref is not None else 1.0)
+                            ref, (lam, lam_e, 1e-9) if ref is not None else 1.0, sweep_base=base)
+            if sibs is not None:
+                rs = sibs.get(int(rate.donor_metastable))
+                ctx.check(rs is not None, acc + ":grid-sibling", lambda: "sibling key lacks metastable %r" % (rate.donor_metastable,))
+                for idx, pp in zip(sorted(todo), pts):
+                    w2 = want_at(idx) / conv * case["sib"]["scale"] * (HC / (lam2 * 1e-9))
+                    ctx.close(_call(ctx, acc + ":grid-sibling", rs, pp) / w2, 1.0, acc + ":grid-sibling", rtol=1e-9,
+                              info="(sibling key rq=%r tr=%r of the same provider; wavelength %r)" % (cs["rq"], cs["tr"], lam2))
+            r2 = again.get(int(rate.donor_metastable))
+            ctx.check(r2 is not None, acc + ":second-object", lambda: "second call lacks metastable %r" % (rate.donor_metastable,))
+            _repeat(ctx, acc, rate, r2, pts, first)
             nt = nt or (multi and any(float(q.max()) > float(q.min()) for q in qs))
         ctx.nt(nt)
     finally:
@@ -576,19 +820,30 @@ def run_wl(case, ctx):
             key = (_sym(SP[sname]), sq, stri)
             if key not in ((_sym(SP[name]), q, tri), (_sym(_elem(name)), q, tri)) and key not in wl.d:
                 wl.put(SP[sname], sq, stri, v)
+        # other transitions stored in the SAME json files the lookup opens (the isotope's and its element's)
+        for j, v in enumerate(case.get("same_file", [])):
+            t2 = (tri + 1 + j) % len(TRANSITIONS)
+            if t2 != tri:
+                for spx in {SP[name], _elem(name)}:
+                    if (_sym(spx), q, t2) not in wl.d:
+                        wl.put(spx, q, t2, v + j)
+                ctx.label("sib:other-transition-same-file")
         want_keys = dict(wl.d)
         wl.write(ctx, path)
-        ad = _ad(path, fl)
+        ad = _ad(path, fl, case.get("adform", 0))
         want = wl.expect(name, q, tri, fl[2])
         own = want_keys.get((_sym(SP[name]), q, tri))
         if want is None:
             ctx.label("wl:missing")
             ctx.raises((RuntimeError,), "wavelength:missing", ad.wavelength, SP[name], q, _tr(tri))
+            ctx.raises((RuntimeError,), "wavelength:missing", lambda: ad.wavelength(ion=SP[name], charge=q, transition=_tr_alt(tri)))
         else:
             ctx.label("wl:isotope-own" if (_is_iso(name) and own is not None) else ("wl:fallback-used" if _is_iso(name) else "wl:element"))
             with ctx.cut("wavelength"):
                 got = ad.wavelength(SP[name], q, _tr(tri))
+                got2 = ad.wavelength(ion=SP[name], charge=q, transition=_tr_alt(tri))      # keywords, other spelling, read twice
             ctx.check(float(got) == want, "wavelength:value", lambda: "wavelength(%s, %d, %r) = %r, stored %r (own %r)" % (name, q, _tr(tri), got, want, own))
+            ctx.check(float(got2) == want, "wavelength:value", lambda: "second read wavelength(ion=%s, charge=%d, transition=%r) = %r, stored %r" % (name, q, _tr_alt(tri), got2, want))
         ctx.nt(len(want_keys) > 0)
     finally:
         shutil.rmtree(path, ignore_errors=True)
@@ -660,8 +915,26 @@ def _write_small(ctx, path, acc, sp, q, tri, donor, dq, ms):
             R.update_beam_cx_rates({donor: {sp: {q: {_tr(tri): {ms: d}}}}}, path)
 
 
-def _get_any(ad, acc, name, q, tri, donor_name, dq, ms):
+def _get_any(ad, acc, name, q, tri, donor_name, dq, ms, form=0):
     sp, donor = SP[name], SP[donor_name]
+    if form == 1:
+        tr = _tr_alt(tri)
+        if acc in ADF11:
+            return getattr(ad, acc)(ion=sp, charge=q)
+        if acc == "thermal_cx_rate":
+            return ad.thermal_cx_rate(donor_element=donor, donor_charge=dq, receiver_element=sp, receiver_charge=q)
+        if acc in PEC2:
+            return getattr(ad, acc)(ion=sp, charge=q, transition=tr)
+        if acc == "thermal_cx_pec":
+            return ad.thermal_cx_pec(donor_element=donor, donor_charge=dq, receiver_element=sp, receiver_charge=q, transition=tr)
+        if acc == "beam_stopping_rate":
+            return ad.beam_stopping_rate(beam_ion=donor, plasma_ion=sp, charge=q)
+        if acc == "beam_population_rate":
+            return ad.beam_population_rate(beam_ion=donor, metastable=ms, plasma_ion=sp, charge=q)
+        if acc == "beam_emission_pec":
+            return ad.beam_emission_pec(beam_ion=donor, plasma_ion=sp, charge=q, transition=tr)
+        if acc == "beam_cx_pec":
+            return ad.beam_cx_pec(donor_ion=donor, receiver_ion=sp, receiver_charge=q, transition=tr)
     if acc in ADF11:
         return getattr(ad, acc)(sp, q)
     if acc == "thermal_cx_rate":
@@ -692,8 +965,16 @@ def run_missing(case, ctx):
     ctx.label("acc:" + acc, "cov:%s:%s:missing" % (acc, _flag_label(fl)), "variant:" + variant, "req:" + ("isotope" if _is_iso(name) else "element"))
     path = tempfile.mkdtemp(prefix="vf_c07_repo_")
     try:
-        ad = _ad(path, fl)
-        getter = lambda: _get_any(ad, acc, name, q, tri, donor_name, dq, ms)  # noqa: E731
+        if variant == "default-path":
+            # data_path omitted: the documented default repository (under the redirected, empty HOME) -> everything is missing
+            ad = OpenADAS(permit_extrapolation=bool(fl[0]), missing_rates_return_null=bool(fl[1]), wavelength_element_fallback=bool(fl[2]))
+            ctx.check(ad.data_path == R.DEFAULT_REPOSITORY_PATH and ad.data_path.startswith(_SCRATCH_HOME), "data_path",
+                      lambda: "default data_path %r" % (ad.data_path,))
+            ctx.label("entry:default-path")
+        else:
+            ad = _ad(path, fl, case.get("adform", 0))
+        form = case.get("form", 0)
+        getter = lambda: _get_any(ad, acc, name, q, tri, donor_name, dq, ms, form)  # noqa: E731
         if acc in INHERITED:
             ctx.label("inherited-not-implemented")
             ctx.raises((RuntimeError,), acc + ":missing", getter)
@@ -712,21 +993,48 @@ def run_missing(case, ctx):
             w.write(ctx, path)
             if q2 >= (1 if acc in ("thermal_cx_pec", "beam_cx_pec") else 0):
                 _write_small(ctx, path, acc, el, q2, tri, del_, dq, ms)
+                if acc in ADF11 or acc == "thermal_cx_rate":
+                    ctx.label("sib:other-charge-same-file:" + acc)
             if acc in PHOTON:
+                # the json file the accessor opens EXISTS and holds other transitions: the lookup fails on the key, not the file
                 _write_small(ctx, path, acc, el, q, (tri + 1) % len(TRANSITIONS), del_, dq, ms)
+                _write_small(ctx, path, acc, el, q, (tri + 2) % len(TRANSITIONS), del_, dq, ms)
+                ctx.label("sib:other-transition-same-file:" + acc)
             if acc in ("beam_population_rate",):
                 _write_small(ctx, path, acc, el, q, tri, del_, dq, ms + 1)
             if _is_iso(name) and _sym(SP[name]) != _sym(el):
                 _write_small(ctx, path, acc, SP[name], q, tri, del_, dq, ms)       # data under the isotope's own symbol: not its element's
             ctx.nt()
         battery = [list(b[:ARITY[acc]]) for b in case["battery"]]
+        battery = battery + battery[:1]                      # the first point again at the end (same null object re-used)
         _expect_missing(ctx, acc + ":missing", getter, fl[1], battery, is_list=(acc == "beam_cx_pec"))
+        _expect_missing(ctx, acc + ":missing-again", getter, fl[1], battery[:2], is_list=(acc == "beam_cx_pec"))   # provider asked twice
+        if fl[1]:
+            ctx.label("null:" + acc)
     finally:
         shutil.rmtree(path, ignore_errors=True)
 
 
 # ================================================================================================ dispatcher
-RUNNERS = {"tab": run_tab, "beam": run_beam, "beamcx": run_beamcx, "wl": run_wl, "missing": run_missing}
+def run_conv(case, ctx):
+    """cherab.core.utility.conversion.PhotonToJ (the documented photon -> J conversion used by every photon coefficient)."""
+    x, lam = case["x"], float(case["wl"])
+    want = np.array(x, dtype=np.float64) * HC / (lam * 1e-9)
+    for form, arg in (("ndarray", np.array(x, dtype=np.float64)), ("list-of-float", None), ("scalar", None)):
+        with ctx.cut("PhotonToJ.to"):
+            if form == "ndarray":
+                got = PhotonToJ.to(arg, lam)
+                back = PhotonToJ.inv(got, lam)
+            else:
+                got = np.array([PhotonToJ.to(float(v), lam) for v in x])
+                back = np.array([PhotonToJ.inv(float(g), lam) for g in got])
+        ctx.close(got / want, np.ones_like(want), "PhotonToJ.to", rtol=1e-12, info="(%s)" % form)
+        ctx.close(back / np.array(x, dtype=np.float64), np.ones_like(want), "PhotonToJ.inv", rtol=1e-12, info="(%s)" % form)
+    ctx.label("entry:PhotonToJ.to", "entry:PhotonToJ.inv")
+    ctx.nt()
+
+
+RUNNERS = {"tab": run_tab, "beam": run_beam, "beamcx": run_beamcx, "wl": run_wl, "missing": run_missing, "conv": run_conv}
 
 
 def run_any(case, ctx):
@@ -769,16 +1077,39 @@ def _grid(draw, lo, hi, nmin=2, nmax=7, hmin=0.2, log=True):
         for s in steps:
             acc += s
             g.append(10.0 ** acc)
-    return _fix_edges(g) if log else g
+    if not log:
+        return g
+    if _open(F_EDGE):
+        return _fix_edges(g)
+    edgy = draw(st.integers(0, 5))          # 0,1: harmful one way; 2: the other way; else as drawn
+    if edgy <= 2:
+        g[0] = _harmful_edge(g[0], 0, edgy == 2)
+        g[-1] = _harmful_edge(g[-1], 1, edgy == 2)
+    return g
 
 
 @st.composite
-def _values(draw, shape, blo, bhi, wmax):
+def _values(draw, shape, blo, bhi, wmax, magic=False):
     base = draw(st.floats(blo, bhi))
     w = draw(st.sampled_from([0.0, 0.3, 1.0, wmax, wmax])) if draw(st.integers(0, 7)) == 0 else draw(st.floats(0.05, wmax))
     n = int(np.prod(shape))
     u = draw(st.lists(st.floats(0.0, 1.0), min_size=n, max_size=n))
-    return (10.0 ** (base + w * np.array(u).reshape(shape))).tolist()
+    v = 10.0 ** (base + w * np.array(u).reshape(shape))
+    if magic:                                # dimensionless tables: some entries exactly 1.0 (log10 = 0), equal neighbours
+        for i in draw(st.lists(st.integers(0, n - 1), max_size=3)):
+            v.flat[i] = 1.0
+    return v.tolist()
+
+
+def _cf(na):
+    return st.lists(st.lists(st.floats(0.05, 0.95), min_size=na, max_size=na), min_size=2, max_size=3)
+
+
+def _sib(kinds):
+    return st.one_of(st.none(), st.fixed_dictionaries({"what": st.sampled_from(kinds), "scale": st.sampled_from([2.0, 0.5, 3.0, 7.0])}))
+
+
+_adform = st.integers(0, 2)
 
 
 def _us(na):
@@ -795,7 +1126,7 @@ def _bad(na):
 
 
 _flags = st.sampled_from(FLAGS)
-_lam = st.floats(1.0, 1.0e4)
+_lam = st.one_of(st.floats(1.0, 1.0e4), st.floats(1.0, 1.0e4), st.sampled_from([1.0, 656.28, 1.0e4]))
 _trs = st.integers(0, len(TRANSITIONS) - 1)
 _decoy = st.one_of(st.none(), st.sampled_from([2.0, 0.5, 3.0, 10.0]))
 
@@ -844,6 +1175,7 @@ def tab_case(draw, acc=None, flags=None, single=None):
     if acc in PHOTON:
         c["wl_el"], c["wl_iso"] = draw(_wl_pair(name))
     c["us"], c["fs"], c["bad"] = draw(_us(na)), draw(_fs(na)), draw(_bad(na))
+    c["cf"], c["sib"], c["adform"] = draw(_cf(na)), draw(_sib(["q", "tr"])), draw(_adform)
     return c
 
 
@@ -866,24 +1198,33 @@ def beam_case(draw, acc=None, flags=None, single=None):
     c["e"], c["n"], c["t"] = g
     collapsed = one[0] or one[1]
     # 'sen' is extrapolated linearly (2-D) but quadratically when one of its axes has a single knot; 'st' always quadratically
-    c["sen"] = draw(_values([len(g[0]), len(g[1])], -25.0 if acc in PHOTON else -20.0, -8.0, 1.5 if collapsed else 5.0))
-    c["st"] = draw(_values([len(g[2])], -16.0, -12.0, 1.5))
-    c["sref"] = draw(st.floats(1e-16, 1e-12))
+    unit = acc == "beam_population_rate" and draw(st.booleans())      # populations are dimensionless numbers of order 1
+    if unit:
+        c["sen"] = draw(_values([len(g[0]), len(g[1])], -3.0, 0.0, 1.5 if collapsed else 3.0, magic=True))
+        c["st"] = draw(_values([len(g[2])], -1.0, 0.0, 1.5, magic=True))
+        c["sref"] = draw(st.one_of(st.just(1.0), st.floats(0.1, 10.0)))
+    else:
+        c["sen"] = draw(_values([len(g[0]), len(g[1])], -25.0 if acc in PHOTON else -20.0, -8.0, 1.5 if collapsed else 5.0))
+        c["st"] = draw(_values([len(g[2])], -16.0, -12.0, 1.5))
+        c["sref"] = draw(st.floats(1e-16, 1e-12))
     c["decoy"] = draw(_decoy) if (_is_iso(c["beam"]) or _is_iso(c["target"])) else None
     if acc in PHOTON:
         c["wl_el"], c["wl_iso"] = draw(_wl_pair(c["beam"]))
     c["us"], c["fs"], c["bad"] = draw(_us(3)), draw(_fs(3)), draw(_bad(3))
+    c["cf"], c["sib"], c["adform"] = draw(_cf(3)), draw(_sib(["q", "tr", "ms"])), draw(_adform)
     return c
 
 
 @st.composite
 def _bcx_data(draw, single):
-    d = {"qref": draw(st.floats(1e-16, 1e-12))}
+    unit = draw(st.integers(0, 3)) == 0        # coefficients of order 1 with qref exactly 1.0 are as valid as 1e-15 ones
+    d = {"qref": draw(st.one_of(st.just(1.0), st.floats(0.1, 10.0))) if unit else draw(st.floats(1e-16, 1e-12))}
     one = draw(st.lists(st.booleans(), min_size=5, max_size=5).filter(any)) if single else [False] * 5
     rng = [(2.0, 4.5), (-1.0, 2.5), (17.0, 20.0), (0.0, 0.3), (-1.0, 0.3)]
     for k, (x, q) in enumerate(BCX_AXES):
         d[x] = draw(_grid(rng[k][0], rng[k][1], 1 if one[k] else 2, 1 if one[k] else 5, hmin=0.3, log=(k == 0)))
-        d[q] = draw(_values([len(d[x])], -16.0, -12.0, 1.5))
+        # qeb: log space, quadratic extrapolation (<= 1.5 decades); the others: LINEAR space, nearest extrapolation
+        d[q] = draw(_values([len(d[x])], -1.0 if unit else -16.0, 0.0 if unit else -12.0, 1.5 if k == 0 else 3.0, magic=unit))
     return d
 
 
@@ -903,6 +1244,7 @@ def beamcx_case(draw, flags=None, single=None):
     c["wl_el"], c["wl_iso"] = draw(_wl_pair(c["recv"]))
     c["idx"] = draw(st.lists(st.lists(st.integers(0, 6), min_size=5, max_size=5), min_size=2, max_size=4))
     c["us"], c["fs"], c["bad"] = draw(_us(5)), draw(_fs(5)), draw(_bad(5))
+    c["cf"], c["sib"], c["adform"] = draw(_cf(5)), draw(_sib(["q", "tr"])), draw(_adform)
     c["skip_beamcx_nonpos"] = bool(_open(F_BCXNP))
     return c
 
@@ -914,6 +1256,8 @@ def wl_case(draw, flags=None):
     c = {"k": "wl", "flags": fl, "sp": name, "q": draw(st.integers(0, SP[name].atomic_number)), "tr": draw(_trs)}
     c["wl_el"], c["wl_iso"] = draw(_wl_pair(name))
     c["siblings"] = draw(st.lists(st.tuples(st.integers(0, 10), _trs, st.sampled_from(ELEMENTS + ISOTOPES), _lam).map(list), max_size=3))
+    c["same_file"] = draw(st.lists(st.floats(1.0, 1.0e4), max_size=2))
+    c["adform"] = draw(_adform)
     return c
 
 
@@ -930,7 +1274,8 @@ def missing_case(draw, acc=None, flags=None):
     z = SP[name].atomic_number
     cx = acc in ("thermal_cx_pec", "beam_cx_pec")
     c = {"k": "missing", "acc": acc, "flags": fl, "sp": name, "q": draw(st.integers(1 if cx else 0, z)), "tr": draw(_trs),
-         "variant": draw(st.sampled_from(["empty", "sibling", "sibling"]))}
+         "variant": draw(st.sampled_from(["empty", "sibling", "sibling", "sibling", "default-path"])), "form": draw(st.integers(0, 1)),
+         "adform": draw(_adform)}
     c["donor"] = draw(st.sampled_from(BEAMS))
     c["dq"] = 0
     c["ms"] = draw(st.integers(1, 2))
@@ -939,60 +1284,108 @@ def missing_case(draw, acc=None, flags=None):
 
 
 # ---- matrix: deterministic cases, every accessor x flag combination x present/missing x element/isotope
+def _hx(axis, rev=False):
+    """first / last knot moved (by < 1500 ulp) onto doubles whose numpy and libm log10 differ (see _harmful_edge)."""
+    g = list(axis)
+    if _open(F_EDGE):
+        return _fix_edges(g)
+    g[0] = _harmful_edge(g[0], 0, rev)
+    g[-1] = _harmful_edge(g[-1], 1, rev)
+    return g
+
+
 def matrix_cases(tier):
-    t22 = [[1.5e-15, 2e-15, 4e-15], [3e-15, 5e-15, 9e-15]]
-    pts2 = {"us": [[0.3, 0.6], [0.5, 0.5], [0.9, 0.1]], "fs": [[2.0, 10.0], [10.0, 3.0]], "bad": [0, 2]}
-    pts3 = {"us": [[0.3, 0.6, 0.4], [0.5, 0.5, 0.5], [0.9, 0.1, 0.7]], "fs": [[2.0, 10.0], [10.0, 3.0], [1.5, 10.0]], "bad": [0, 2, 1]}
-    pts5 = {"us": [[0.3, 0.6, 0.4, 0.2, 0.8], [0.5] * 5, [0.9, 0.1, 0.7, 0.5, 0.3]], "fs": [[2.0, 10.0]] * 5, "bad": [0, 2, 1, 0, 0]}
+    # zig-zag tables spanning 6 decades between neighbours: an interpolant that is not built in log space undershoots below 0
+    zz = [[1.5e-15, 2e-9, 4e-15, 3e-10], [3e-9, 5e-15, 9e-10, 2e-15], [2e-15, 7e-10, 1e-15, 6e-9]]
+    mild = [[1.5e-15, 2e-15, 4e-15, 5e-15], [3e-15, 5e-15, 9e-15, 9.5e-15], [4e-15, 6e-15, 9.5e-15, 1e-14]]
+    pts2 = {"us": [[0.3, 0.6], [0.5, 0.5], [0.9, 0.1]], "fs": [[2.0, 10.0], [10.0, 3.0]], "bad": [0, 2], "cf": [[0.5, 0.5], [0.2, 0.8], [0.85, 0.15]]}
+    pts3 = {"us": [[0.3, 0.6, 0.4], [0.5, 0.5, 0.5], [0.9, 0.1, 0.7]], "fs": [[2.0, 10.0], [10.0, 3.0], [1.5, 10.0]], "bad": [0, 2, 1],
+            "cf": [[0.5, 0.5, 0.5], [0.2, 0.8, 0.3], [0.85, 0.15, 0.7]]}
+    pts5 = {"us": [[0.3, 0.6, 0.4, 0.2, 0.8], [0.5] * 5, [0.9, 0.1, 0.7, 0.5, 0.3]], "fs": [[2.0, 10.0]] * 5, "bad": [0, 2, 1, 0, 0],
+            "cf": [[0.5] * 5, [0.2, 0.8, 0.3, 0.15, 0.85], [0.85, 0.15, 0.7, 0.9, 0.1]]}
+    n = 0
     for fl in FLAGS:
         for iso in (False, True):
             sp = "deuterium" if iso else "hydrogen"
             wlp = {"wl_el": 656.28, "wl_iso": 656.10 if iso else None}
+            ne, te, td = _hx([1e18, 2e18, 1e19], iso), _hx([0.2, 1.0, 10.0, 100.0], iso), _hx([0.5, 5.0], iso)
             for acc in TAB_ACC:
+                n += 1
                 c = {"k": "tab", "acc": acc, "flags": fl, "sp": sp, "q": 1, "tr": 0, "decoy": 2.0 if iso else None,
-                     "axes": [[1e18, 2e18], [1.0, 10.0, 100.0]], "table": t22}
+                     "axes": [ne, te], "table": zz, "sib": {"what": "tr" if iso else "q", "scale": 3.0}, "adform": n % 3}
                 c.update(pts2)
                 if acc in ("thermal_cx_rate", "thermal_cx_pec"):
                     c["donor"], c["dq"] = ("deuterium" if iso else "hydrogen"), 0
                 if acc == "thermal_cx_pec":
                     if iso and _open(F_TCXISO):
                         c["sp"] = "hydrogen"            # excluded_known: isotope receiver of thermal_cx_pec
-                    c["axes"] = c["axes"] + [[0.5, 5.0]]
-                    c["table"] = [[[v, 1.5 * v] for v in row] for row in t22]
+                    c["axes"] = [ne, te, td]
+                    c["table"] = [[[v, 1e3 * v] for v in row] for row in zz]
                     c.update(pts3)
                 if acc in PHOTON:
                     c.update(wlp)
                 yield c
+            e, nn, t = _hx([1e4, 5e4, 1e5], iso), _hx([1e19, 1e20, 1e21, 2e21], iso), _hx([0.5, 1.0, 100.0, 1000.0], iso)
             for acc in BEAM_ACC:
-                c = {"k": "beam", "acc": acc, "flags": fl, "beam": sp, "target": "carbon13" if iso else "carbon", "tq": 6, "ms": 2, "tr": 0,
-                     "e": [1e4, 5e4], "n": [1e19, 1e20, 1e21], "t": [10.0, 100.0, 1000.0], "sen": t22, "st": [1e-14, 2e-14, 2.5e-14],
-                     "sref": 1.5e-14, "decoy": 2.0 if iso else None}
+                n += 1
+                c = {"k": "beam", "acc": acc, "flags": fl, "beam": sp, "target": "carbon13" if iso else "carbon", "tq": 5, "ms": 2, "tr": 0,
+                     "e": e, "n": nn, "t": t, "sen": zz if not fl[0] else mild, "st": [1e-14, 2e-14, 2.5e-14, 1.2e-14],
+                     "sref": 1.5e-14, "decoy": 2.0 if iso else None, "sib": {"what": ["q", "tr", "ms"][n % 3], "scale": 3.0}, "adform": n % 3}
                 c.update(pts3)
                 if acc in PHOTON:
                     c.update(wlp)
                 yield c
             d = {"qref": 2e-15}
             for (x, q), lo in zip(BCX_AXES, (1e4, 100.0, 1e19, 1.0, 1.0)):
-                d[x] = [lo, 2 * lo, 5 * lo]
-                d[q] = [1e-15, 2e-15, 2.5e-15]
-            c = {"k": "beamcx", "flags": fl, "donor": sp, "recv": "carbon13" if iso else "carbon", "rq": 6, "tr": 3, "ms": {"1": d, "2": dict(d, qref=1e-15)},
-                 "decoy": 2.0 if iso else None, "wl_el": 529.05, "wl_iso": 529.0 if iso else None, "idx": [[0, 1, 2, 0, 1], [2, 2, 2, 2, 2]],
-                 "skip_beamcx_nonpos": bool(_open(F_BCXNP))}
+                d[x] = [lo, 2 * lo, 5 * lo, 10 * lo]
+                d[q] = [1e-15, 2e-15, 2.5e-15, 1.1e-15] if x == "eb" else [1e-15, 9e-13, 2e-15, 8e-13]     # linear space: zig-zag
+            d["eb"] = _hx(d["eb"], iso)
+            n += 1
+            c = {"k": "beamcx", "flags": fl, "donor": sp, "recv": "carbon13" if iso else "carbon", "rq": 5, "tr": 3,
+                 "ms": {"1": d, "2": dict(d, qref=1.0, qti=[1.0, 0.5, 1.0, 2.0])},
+                 "decoy": 2.0 if iso else None, "wl_el": 529.05, "wl_iso": 529.0 if iso else None, "idx": [[0, 1, 2, 0, 1], [2, 2, 2, 2, 2], [3, 3, 3, 3, 3]],
+                 "skip_beamcx_nonpos": bool(_open(F_BCXNP)), "sib": {"what": "tr" if iso else "q", "scale": 3.0}, "adform": n % 3}
             c.update(pts5)
             yield c
             yield {"k": "wl", "flags": fl, "sp": sp, "q": 0, "tr": 0, "wl_el": 656.28, "wl_iso": 656.10 if iso else None,
-                   "siblings": [[0, 1, "hydrogen", 486.1], [1, 0, "helium", 468.6]]}
+                   "siblings": [[0, 1, "hydrogen", 486.1], [1, 0, "helium", 468.6]], "same_file": [434.0], "adform": n % 3}
             yield {"k": "wl", "flags": fl, "sp": sp, "q": 0, "tr": 0, "wl_el": None if not iso else 656.28, "wl_iso": None,
-                   "siblings": [[0, 1, "hydrogen", 486.1]]}
-            bat = [[1e19, 10.0, 1e19, 2.0, 2.0], [0.0, 0.0, 0.0, 0.0, 0.0], [-1.0, 5.0, 1e300, -1.0, 1e-300], [1e300] * 5]
+                   "siblings": [[0, 1, "hydrogen", 486.1]], "same_file": [434.0, 410.0], "adform": (n + 1) % 3}
+            bat = [[1e19, 10.0, 1e19, 2.0, 2.0], [0.0, 0.0, 0.0, 0.0, 0.0], [-1.0, 5.0, 1e300, -1.0, 1e-300], [1e300] * 5, [1.0] * 5]
             for acc in TAB_ACC + BEAM_ACC + ["beam_cx_pec"] + INHERITED:
                 f2 = list(fl)
                 if (acc == "recombination_pec" and _open(F_RPEC)) or (acc == "beam_cx_pec" and _open(F_BCXNULL)):
                     if f2[1]:
                         continue                        # excluded_known cell of the matrix
-                for variant in ("empty", "sibling"):
+                for variant in ("empty", "sibling") + (() if iso else ("default-path",)):
+                    n += 1
                     yield {"k": "missing", "acc": acc, "flags": f2, "sp": sp, "q": 1, "tr": 0, "variant": variant, "donor": sp if acc not in TAB_ACC else "hydrogen",
-                           "dq": 0, "ms": 1, "battery": bat}
+                           "dq": 0, "ms": 1, "battery": bat, "form": n % 2, "adform": n % 3}
+    # ---- single-point axes the classes accept: every 1-D / constant branch of the beam classes and of BeamCXPEC
+    for fl in ([0, 0, 0], [1, 0, 0]):
+        for acc in BEAM_ACC:
+            for one in ([1, 0, 0], [0, 1, 0], [1, 1, 0]):
+                e = [2e4] if one[0] else _hx([1e4, 5e4, 1e5])
+                nn = [1e20] if one[1] else _hx([1e19, 1e20, 1e21, 2e21])
+                sen = [[v * (1 + 0.3 * j) * (1 + 0.1 * i) for j in range(len(nn))] for i, v in enumerate([1.5e-15, 3e-15, 2e-15][:len(e)])]
+                c = {"k": "beam", "acc": acc, "flags": fl, "beam": "hydrogen", "target": "carbon", "tq": 5, "ms": 1, "tr": 0, "e": e, "n": nn,
+                     "t": _hx([0.5, 1.0, 100.0, 1000.0]), "sen": sen, "st": [1e-14, 2e-14, 2.5e-14, 1.2e-14], "sref": 1.0e-14, "decoy": None,
+                     "wl_el": 656.28, "wl_iso": None, "sib": None, "adform": 0}
+                c.update(pts3)
+                yield c
+        for k in range(5):
+            d = {"qref": 2e-15}
+            for j, ((x, q), lo) in enumerate(zip(BCX_AXES, (1e4, 100.0, 1e19, 1.0, 1.0))):
+                d[x] = [2 * lo] if j == k else [lo, 2 * lo, 5 * lo]
+                d[q] = [1.5e-15] if j == k else [1e-15, 2e-15, 2.5e-15]
+            if k != 0:
+                d["eb"] = _hx(d["eb"])
+            c = {"k": "beamcx", "flags": fl, "donor": "hydrogen", "recv": "carbon", "rq": 5, "tr": 3, "ms": {"1": d}, "decoy": None,
+                 "wl_el": 529.05, "wl_iso": None, "idx": [[0, 1, 2, 0, 1]], "skip_beamcx_nonpos": bool(_open(F_BCXNP)), "sib": None, "adform": 0}
+            c.update(pts5)
+            yield c
+    yield {"k": "conv", "x": [1.0, 1e-15, 3.5e-20, 2.0], "wl": 656.28}
+    yield {"k": "conv", "x": [7e-16], "wl": 1.0}
 
 
 SUBCHECKS = {
